@@ -67,10 +67,12 @@ def regenerate_extracted(pid=None):
         return False, "extractor failed: %r" % (e,), False
     changed = _write_if_changed(os.path.join(LEAN, "Momo", "Extracted.lean"), text)
     try:
-        ttext, tmissing = translate.generate(REPO)
+        tfiles, tmissing = translate.generate_all(REPO)
     except Exception as e:
         return False, "translator failed: %r" % (e,), changed
-    changed = _write_if_changed(os.path.join(LEAN, "Momo", "Translated.lean"), ttext) or changed
+    for rel, ttext in tfiles.items():
+        os.makedirs(os.path.dirname(os.path.join(LEAN, "Momo", rel)), exist_ok=True)
+        changed = _write_if_changed(os.path.join(LEAN, "Momo", rel), ttext) or changed
     msgs = []
     if missing:
         msgs.append("extractor could not find: " + ", ".join(missing))
@@ -515,8 +517,9 @@ def main():
             text, _ = extract.generate("/repo")
             with open(os.path.join(LEAN, "Momo", "Extracted.lean"), "w") as f:
                 f.write(text)
-            with open(os.path.join(LEAN, "Momo", "Translated.lean"), "w") as f:
-                f.write(translate.generate("/repo")[0])
+            for rel, ttext in translate.generate_all("/repo")[0].items():
+                with open(os.path.join(LEAN, "Momo", rel), "w") as f:
+                    f.write(ttext)
         sys.exit(rc)
     if a.cmd == "replay":
         rp = json.load(open(a.path))
